@@ -118,3 +118,31 @@ func (t *TokenBucketFilter) VerifQueue() (chunks, bytes int) {
 
 	return len(t.queue.chunks), t.queue.currentBytes
 }
+
+// VerifQueued returns the number of datagrams waiting in the socket's
+// receive queue (lets the harness read exactly what has arrived without
+// waiting for a timeout).
+func (c *UDPConn) VerifQueued() int { return len(c.readCh) }
+
+// VerifIfc returns the addresses on the router's parent-side interface.
+func (r *Router) VerifIfc() ([]string, error) {
+	ifc, err := r.getInterface("eth0")
+	if err != nil {
+		return nil, err
+	}
+	addrs, _ := ifc.Addrs()
+	var s []string
+	for _, a := range addrs {
+		if n, ok := a.(*net.IPNet); ok {
+			s = append(s, n.IP.String())
+		}
+	}
+
+	return s, nil
+}
+
+// UDPConnLike is what the bind-table check needs from a vnet socket.
+type UDPConnLike interface {
+	net.PacketConn
+	VerifQueued() int
+}
